@@ -15,7 +15,8 @@ RULE = ("Random solver-friendly OCPs (2-3 states, 1-2 controls, mildly nonlinear
         "random argument values F is compared with the imperative pipeline (set_value, set_initial, solve, sol.sample / "
         "sol.value) run on a second instance of the same specification with the same ipopt options; a parameter that is "
         "NOT listed is changed with set_value after the first transcription and before to_function and must keep that "
-        "current value.  In 40 % of the cases the imperative pipeline is instead ONE OCP, transcribed and solved once before, "
+        "current value.  Cases whose time grid has variables of its own (FreeGrid, localized grids) are compared at the "
+        "start point itself (max_iter=0), the others after two iterations or at convergence.  In 40 % of the cases the imperative pipeline is instead ONE OCP, transcribed and solved once before, "
         "that receives every set of values through numpy buffers refreshed in place (what a user's MPC loop does).  "
         "non-trivial = both pipelines converged and at least one output compared; distinct = method x "
         "grid x N x argument selection.")
@@ -53,6 +54,10 @@ def gen_cases(rng, tier):
                 # solves agree to solver tolerance only (1e-6 is not met); the iteration-limited comparison, which senses
                 # the start point these arguments are about, is the deciding one
                 case["limited"] = True
+                # ... and from the start point itself (no iteration): with a singular reduced Hessian ipopt's inertia
+                # correction is discontinuous, start points that differ in the last bit (4e-16 was observed between the
+                # two pipelines) can part after one step
+                case["max_iter"] = 0
         if cls == "SS" and rng.random() < 0.5:
             # the only state guess SingleShooting can take: the initial state
             case["args"] = sorted(set(case["args"]) - {"x_guess"} | {"x0_guess"})
@@ -122,7 +127,7 @@ def make_ocp(case):
     ocp.method(meth)
     # 'limited': stop after two iterations, so that the outputs depend on the start point (initial-guess arguments)
     ocp.solver("ipopt", {"ipopt.print_level": 0, "print_time": False, "ipopt.tol": 1e-10,
-                         "ipopt.max_iter": 2 if case.get("limited") else 200})
+                         "ipopt.max_iter": case.get("max_iter", 2) if case.get("limited") else 200})
     return ocp, {"x": x, "u": u, "x0": x0p, "ref": ref, "q": q, "pT": pT}
 
 
